@@ -26,7 +26,7 @@ ASSUMPTIONS = [
     "libxml2 is a second opinion on formatted output when year != 0 (XSD 1.0 has no year 0000)",
     "rejection is asserted only for strings of the right shape that denote no calendar date / time of day; out-of-range zone offsets are not asserted",
     "comparisons are checked for pairs where both or neither value has an offset (mixed pairs are indeterminate in XSD); XmlTime pairs avoid hour 24",
-    "stdlib conversions are checked for years 1..9999, hour < 24, fractional seconds that are whole microseconds",
+    "stdlib conversions are checked for years 1..9999, hour < 24; exact for whole microseconds, within 1 microsecond (and never an exception) for values between two microseconds",
 ]
 
 from xsdata.exceptions import ConverterError  # noqa: E402
@@ -368,8 +368,11 @@ def case_std(draw):
     d = draw(st.integers(1, X.days_in_month(y, m)))
     h, mi, s = draw(st.integers(0, 23)), draw(st.integers(0, 59)), draw(st.integers(0, 59))
     us = draw(st.sampled_from([0, 0, 1, 999999, 500000, 123456]))
+    # values between two microseconds: the standard library cannot hold them, the conversion must still succeed and
+    # stay within one microsecond of the instant (also right below the next whole second)
+    sub = draw(st.sampled_from([0, 0, 0, 1, 499, 500, 501, 999])) if t != "date" else 0
     off = draw(X.offsets)
-    return {"k": "std", "t": t, "v": [y, m, d, h, mi, s, us * 1000, off]}
+    return {"k": "std", "t": t, "v": [y, m, d, h, mi, s, us * 1000 + sub, off]}
 
 
 def _tz(off):
@@ -379,7 +382,7 @@ def _tz(off):
 def run_std(case, col):
     t = case["t"]
     y, m, d, h, mi, s, ns, off = case["v"]
-    col.case(("std", t, case["v"]), True, labels=[f"std:{t}", "std:negative-offset" if (off or 0) < 0 else "std:offset>=0",
+    col.case(("std", t, case["v"]), True, labels=[f"std:{t}", "std:sub-microsecond" if ns % 1000 else "std:whole-microsecond", "std:negative-offset" if (off or 0) < 0 else "std:offset>=0",
                                                    "std:offset-not-whole-hour" if off and off % 60 else "std:whole-hour"],
              sample={"check": "stdlib", "type": t, "fields": case["v"]})
     fails = []
@@ -388,10 +391,15 @@ def run_std(case, col):
             x = XmlDateTime(y, m, d, h, mi, s, ns, off)
             want = datetime.datetime(y, m, d, h, mi, s, ns // 1000, tzinfo=_tz(off))
             got = x.to_datetime()
-            if got != want or got.utcoffset() != want.utcoffset() or got.replace(tzinfo=None) != want.replace(tzinfo=None):
+            if ns % 1000:
+                whole = datetime.datetime(y, m, d, h, mi, s)
+                err = (got.replace(tzinfo=None) - whole) // datetime.timedelta(microseconds=1) * 1000 - ns
+                if abs(err) >= 1000 or got.utcoffset() != want.utcoffset():
+                    fails.append(Failure("std/to_datetime-submicro", f"{x!r}.to_datetime() = {got!r} is {err} ns away from the instant", case))
+            elif got != want or got.utcoffset() != want.utcoffset() or got.replace(tzinfo=None) != want.replace(tzinfo=None):
                 fails.append(Failure("std/to_datetime", f"{x!r}.to_datetime() = {got!r}, expected {want!r}", case))
             back = XmlDateTime.from_datetime(want)
-            if tuple(back) != tuple(x):
+            if ns % 1000 == 0 and tuple(back) != tuple(x):
                 fails.append(Failure("std/from_datetime", f"XmlDateTime.from_datetime({want!r}) = {back!r}, expected {x!r}", case))
         elif t == "date":
             x = XmlDate(y, m, d, off)
@@ -409,10 +417,16 @@ def run_std(case, col):
             x = XmlTime(h, mi, s, ns, off)
             want = datetime.time(h, mi, s, ns // 1000, tzinfo=_tz(off))
             got = x.to_time()
-            if got.replace(tzinfo=None) != want.replace(tzinfo=None) or got.utcoffset() != want.utcoffset():
+            if ns % 1000:
+                day = datetime.datetime(2000, 1, 1)
+                err = (datetime.datetime.combine(day, got.replace(tzinfo=None)) - day.replace(hour=h, minute=mi, second=s)) \
+                    // datetime.timedelta(microseconds=1) * 1000 - ns
+                if abs(err) >= 1000 or got.utcoffset() != want.utcoffset():
+                    fails.append(Failure("std/to_time-submicro", f"{x!r}.to_time() = {got!r} is {err} ns away from the time of day", case))
+            elif got.replace(tzinfo=None) != want.replace(tzinfo=None) or got.utcoffset() != want.utcoffset():
                 fails.append(Failure("std/to_time", f"{x!r}.to_time() = {got!r}, expected {want!r}", case))
             back = XmlTime.from_time(want)
-            if tuple(back) != tuple(x):
+            if ns % 1000 == 0 and tuple(back) != tuple(x):
                 fails.append(Failure("std/from_time", f"XmlTime.from_time({want!r}) = {back!r}, expected {x!r}", case))
     except Exception as e:
         fails.append(Failure(exc_sig(f"std-crash/{t}", e), f"{case['v']}: {type(e).__name__}: {e}", case))
